@@ -69,13 +69,13 @@ func c15Cases(tier string) []sigCase {
 		{"S03", []sigParam{{"p", PL}, {"n", I}, {"s", S}, {"u", U8}}, []*Ty{PL, Bo, S}},
 		{"S04", []sigParam{{"_", I}, {"b", S}}, []*Ty{I}},
 		{"S05", []sigParam{{"a", S}, {"b", S}, {"c", I}, {"d", I}, {"e", Bo}}, []*Ty{S}},
-		{"S06", []sigParam{{"f", I}, {"b", S}}, []*Ty{Bo}},   // F6: parameter named like the generator's own
-		{"S07", []sigParam{{"", I}, {"", S}}, []*Ty{Bo}},     // F6: unnamed parameters
-		{"S08", []sigParam{{"a", I}, {"b", S}}, nil},         // F10: no results
-		{"S09", []sigParam{{"v0", I}, {"err", S}}, []*Ty{I}}, // names used elsewhere by the generators
+		{"S06", []sigParam{{"f", I}, {"b", S}}, []*Ty{Bo}},                // F6: parameter named like the generator's own
+		{"S07", []sigParam{{"", I}, {"", S}}, []*Ty{Bo}},                  // F6: unnamed parameters
+		{"S08", []sigParam{{"a", I}, {"b", S}}, nil},                      // F10: no results
+		{"S09", []sigParam{{"v0", I}, {"err", S}}, []*Ty{I}},              // names used elsewhere by the generators
 		{"S13", []sigParam{{"param_1", I}, {"_", I}, {"c", S}}, []*Ty{I}}, // a user name that looks like a renamed blank
-		{"S14", []sigParam{{"a", I}, {"_", S}}, []*Ty{I}},                  // the only blank parameter is the last one
-		{"S15", []sigParam{{"a", I}, {"b", S}, {"f", Bo}}, []*Ty{Bo}},      // the only parameter named f is the last one
+		{"S14", []sigParam{{"a", I}, {"_", S}}, []*Ty{I}},                 // the only blank parameter is the last one
+		{"S15", []sigParam{{"a", I}, {"b", S}, {"f", Bo}}, []*Ty{Bo}},     // the only parameter named f is the last one
 	}
 	if tier != "quick" {
 		cs = append(cs,
@@ -443,9 +443,9 @@ func c16CaseInsts(tier string) []CaseInst {
 		c16Compose("K01", [][]*Ty{{I}, {PL}}, S),
 		c16Compose("K02", [][]*Ty{{I, S}, {Bo}, {Slice(I), Map(S, I)}}, S),
 		c16Compose("K03", [][]*Ty{{S}, {}, {I}}, I),
-		c16Compose("K04", [][]*Ty{{I}, {leafTy}}, S),                   // F7: struct result
-		c16Compose("K05", [][]*Ty{{I}, {Named("NInt", I)}}, S),        // F7: named basic result
-		c16Compose("K06", [][]*Ty{{I}, {Array(2, I)}}, S),             // F7: array result
+		c16Compose("K04", [][]*Ty{{I}, {leafTy}}, S),           // F7: struct result
+		c16Compose("K05", [][]*Ty{{I}, {Named("NInt", I)}}, S), // F7: named basic result
+		c16Compose("K06", [][]*Ty{{I}, {Array(2, I)}}, S),      // F7: array result
 		c16Compose("K07", [][]*Ty{{I}, {S, Bo, B("float64")}}, S),
 	}
 	if tier != "quick" {
@@ -534,6 +534,7 @@ func c18CaseInsts(tier string) []CaseInst {
 		{"N10", nil, nil},
 		{"N12", []*Ty{Slice(I)}, nil}, // one non-comparable parameter, no results
 		{"N13", []*Ty{Slice(I), S}, nil},
+		{"N14", []*Ty{Slice(B("uint8")), I}, []*Ty{I}}, // []byte as a field of the input struct (F2 region carved)
 	}
 	if tier != "quick" {
 		cases = append(cases, memCase{"N08", []*Ty{Map(S, I)}, []*Ty{I}}, memCase{"N09", []*Ty{leafTy, Named("NInt", I)}, []*Ty{Bo}})
@@ -554,88 +555,105 @@ func c18CaseInsts(tier string) []CaseInst {
 				g.declare(p)
 			}
 			np, nr := len(mc.Params), len(mc.Results)
-			var b strings.Builder
-			// f's own table: argument tuples seen and the results it gave (f is deterministic by construction)
-			for i, p := range mc.Params {
-				fmt.Fprintf(&b, "\tvar seen%d []%s\n", i, p.Expr())
-			}
-			for i, r := range mc.Results {
-				fmt.Fprintf(&b, "\tvar gave%d []%s\n", i, r.Expr())
-			}
-			b.WriteString("\tn, dup := 0, 0\n")
-			var fps, same, recA, recR, retOld, retNew, rts []string
-			for i, p := range mc.Params {
-				fps = append(fps, fmt.Sprintf("p%d %s", i, p.Expr()))
-				// classes are those of DERIVED Equal (the relation Mem itself uses); f is a function of the class
-				if p.K == "basic" {
-					same = append(same, fmt.Sprintf("(seen%d[k] == p%d)", i, i))
-				} else {
-					same = append(same, fmt.Sprintf("deriveEqualM%s_%d(seen%d[k], p%d)", id, i, i, i))
+			hasBytes := false
+			for _, p := range mc.Params {
+				if p.K == "slice" && p.Elem.K == "basic" && p.Elem.Name == "uint8" {
+					hasBytes = true
 				}
-				recA = append(recA, fmt.Sprintf("\t\tseen%d = append(seen%d, p%d)\n", i, i, i))
 			}
-			for i, r := range mc.Results {
-				rts = append(rts, r.Expr())
-				retOld = append(retOld, fmt.Sprintf("gave%d[k]", i))
-				retNew = append(retNew, fmt.Sprintf("v%d", i))
-				recR = append(recR, fmt.Sprintf("\t\tv%d := %s\n\t\tgave%d = append(gave%d, v%d)\n", i, nd(r, fmt.Sprintf("v%d", i)), i, i, i))
-			}
-			sameC := "true"
-			if len(same) > 0 {
-				sameC = strings.Join(same, " && ")
-			}
-			retSig := ""
-			if nr > 0 {
-				retSig = " (" + strings.Join(rts, ", ") + ")"
-			}
-			ro, rn := "", ""
-			if nr > 0 {
-				ro = "\t\t\t\treturn " + strings.Join(retOld, ", ") + "\n"
-				rn = "\t\treturn " + strings.Join(retNew, ", ") + "\n"
-			} else {
-				ro = "\t\t\t\treturn\n"
-			}
-			fmt.Fprintf(&b, "\tf := func(%s)%s {\n\t\tfor k := 0; k < n; k++ {\n\t\t\tif %s {\n\t\t\t\tdup++\n%s\t\t\t}\n\t\t}\n%s%s\t\tn++\n%s\t}\n",
-				strings.Join(fps, ", "), retSig, sameC, ro, strings.Join(recA, ""), strings.Join(recR, ""), rn)
-			fmt.Fprintf(&b, "\tm := deriveMem%s(f)\n", id)
-			calls := 3
-			for c := 0; c < calls; c++ {
-				var as []string
+			build := func(carveF2 bool) string {
+				var b strings.Builder
+				// f's own table: argument tuples seen and the results it gave (f is deterministic by construction)
 				for i, p := range mc.Params {
-					fmt.Fprintf(&b, "\ta%d_%d := %s\n", c, i, ndo(p, fmt.Sprintf("a%d_%d", c, i), "len=1,cap=0,str=1,map=1"))
-					as = append(as, fmt.Sprintf("a%d_%d", c, i))
+					fmt.Fprintf(&b, "\tvar seen%d []%s\n", i, p.Expr())
 				}
-				var os []string
-				for i := range mc.Results {
-					os = append(os, fmt.Sprintf("o%d_%d", c, i))
-				}
-				if nr > 0 {
-					fmt.Fprintf(&b, "\t%s := m(%s)\n", strings.Join(os, ", "), strings.Join(as, ", "))
-				} else {
-					fmt.Fprintf(&b, "\tm(%s)\n", strings.Join(as, ", "))
-				}
-				// the class of this argument tuple must be in f's table now, with these results
-				var sm []string
-				for i, p := range mc.Params {
-					sm = append(sm, fmt.Sprintf("%s(seen%d[k], a%d_%d)", g.RefEq(p), i, c, i))
-				}
-				smC := "true"
-				if len(sm) > 0 {
-					smC = strings.Join(sm, " && ")
-				}
-				var rc []string
 				for i, r := range mc.Results {
-					rc = append(rc, eqExpr(r, fmt.Sprintf("o%d_%d", c, i), fmt.Sprintf("gave%d[k]", i)))
+					fmt.Fprintf(&b, "\tvar gave%d []%s\n", i, r.Expr())
 				}
-				rcC := "true"
-				if len(rc) > 0 {
-					rcC = strings.Join(rc, " && ")
+				b.WriteString("\tn, dup := 0, 0\n")
+				var fps, same, recA, recR, retOld, retNew, rts []string
+				for i, p := range mc.Params {
+					fps = append(fps, fmt.Sprintf("p%d %s", i, p.Expr()))
+					// classes are those of DERIVED Equal (the relation Mem itself uses); f is a function of the class
+					if p.K == "basic" {
+						same = append(same, fmt.Sprintf("(seen%d[k] == p%d)", i, i))
+					} else {
+						same = append(same, fmt.Sprintf("deriveEqualM%s_%d(seen%d[k], p%d)", id, i, i, i))
+					}
+					recA = append(recA, fmt.Sprintf("\t\tseen%d = append(seen%d, p%d)\n", i, i, i))
 				}
-				fmt.Fprintf(&b, "\tfound%d := false\n\tfor k := 0; k < n; k++ {\n\t\tif %s {\n\t\t\tfound%d = %s\n\t\t}\n\t}\n\tvx.Assert(found%d, \"call %d returns what f returns for that argument class\")\n", c, smC, c, rcC, c, c+1)
+				for i, r := range mc.Results {
+					rts = append(rts, r.Expr())
+					retOld = append(retOld, fmt.Sprintf("gave%d[k]", i))
+					retNew = append(retNew, fmt.Sprintf("v%d", i))
+					recR = append(recR, fmt.Sprintf("\t\tv%d := %s\n\t\tgave%d = append(gave%d, v%d)\n", i, nd(r, fmt.Sprintf("v%d", i)), i, i, i))
+				}
+				sameC := "true"
+				if len(same) > 0 {
+					sameC = strings.Join(same, " && ")
+				}
+				retSig := ""
+				if nr > 0 {
+					retSig = " (" + strings.Join(rts, ", ") + ")"
+				}
+				ro, rn := "", ""
+				if nr > 0 {
+					ro = "\t\t\t\treturn " + strings.Join(retOld, ", ") + "\n"
+					rn = "\t\treturn " + strings.Join(retNew, ", ") + "\n"
+				} else {
+					ro = "\t\t\t\treturn\n"
+				}
+				fmt.Fprintf(&b, "\tf := func(%s)%s {\n\t\tfor k := 0; k < n; k++ {\n\t\t\tif %s {\n\t\t\t\tdup++\n%s\t\t\t}\n\t\t}\n%s%s\t\tn++\n%s\t}\n",
+					strings.Join(fps, ", "), retSig, sameC, ro, strings.Join(recA, ""), strings.Join(recR, ""), rn)
+				fmt.Fprintf(&b, "\tm := deriveMem%s(f)\n", id)
+				calls := 3
+				for c := 0; c < calls; c++ {
+					var as []string
+					for i, p := range mc.Params {
+						fmt.Fprintf(&b, "\ta%d_%d := %s\n", c, i, ndo(p, fmt.Sprintf("a%d_%d", c, i), "len=1,cap=0,str=1,map=1"))
+						if carveF2 && p.K == "slice" && p.Elem.K == "basic" && p.Elem.Name == "uint8" {
+							// outside known finding F2: no empty non-nil []byte among the arguments
+							fmt.Fprintf(&b, "\tvx.Assume((a%d_%d == nil) == (len(a%d_%d) == 0))\n", c, i, c, i)
+						}
+						as = append(as, fmt.Sprintf("a%d_%d", c, i))
+					}
+					var os []string
+					for i := range mc.Results {
+						os = append(os, fmt.Sprintf("o%d_%d", c, i))
+					}
+					if nr > 0 {
+						fmt.Fprintf(&b, "\t%s := m(%s)\n", strings.Join(os, ", "), strings.Join(as, ", "))
+					} else {
+						fmt.Fprintf(&b, "\tm(%s)\n", strings.Join(as, ", "))
+					}
+					// the class of this argument tuple must be in f's table now, with these results
+					var sm []string
+					for i, p := range mc.Params {
+						sm = append(sm, fmt.Sprintf("%s(seen%d[k], a%d_%d)", g.RefEq(p), i, c, i))
+					}
+					smC := "true"
+					if len(sm) > 0 {
+						smC = strings.Join(sm, " && ")
+					}
+					var rc []string
+					for i, r := range mc.Results {
+						rc = append(rc, eqExpr(r, fmt.Sprintf("o%d_%d", c, i), fmt.Sprintf("gave%d[k]", i)))
+					}
+					rcC := "true"
+					if len(rc) > 0 {
+						rcC = strings.Join(rc, " && ")
+					}
+					fmt.Fprintf(&b, "\tfound%d := false\n\tfor k := 0; k < n; k++ {\n\t\tif %s {\n\t\t\tfound%d = %s\n\t\t}\n\t}\n\tvx.Assert(found%d, \"call %d returns what f returns for that argument class\")\n", c, smC, c, rcC, c, c+1)
+				}
+				_ = np
+				b.WriteString("\tvx.Assert(dup == 0, \"f invoked at most once per class of Equal argument tuples\")\n")
+				return b.String()
 			}
-			_ = np
-			b.WriteString("\tvx.Assert(dup == 0, \"f invoked at most once per class of Equal argument tuples\")\n")
-			return []HarnessSrc{h("VX_C18_mem_"+id, "mem", b.String())}
+			// ([]byte next to other parameters travels as a field of Mem's input struct, where derived Equal uses
+			// bytes.Equal; F2 does not become observable here: the differing hash keeps nil and empty apart, and the
+			// classes of this harness are those of derived Equal on each argument. Case N14 covers the shape.)
+			_ = hasBytes
+			return []HarnessSrc{h("VX_C18_mem_"+id, "mem", build(false))}
 		}})
 	}
 	return out
